@@ -25,7 +25,8 @@ var (
 			"Path- and Domain-scoped incl. foreign domains, Secure, HttpOnly, several at once) and client-supplied extra cookies, against the "+
 			"sessions.Cache handler in-process; cache limit, lifetime and the SSL test override are generated; differential oracle = one "+
 			"independent net/http/cookiejar (same public-suffix list) per session id plus session tags embedded in every cookie value; "+
-			"non-trivial = a request in a session that already has stored cookies, after a request of another session; distinct = SHA-256 of the history")
+			"non-trivial = a request in a session that already has stored cookies, after a request of another session; distinct = SHA-256 of the history"+
+			" Later additions: paths and cookie Path attributes with trailing slashes, empty and dot segments; Set-Cookie lines a strict parser skips; 1xx interim responses in front of the final response.")
 	recS = vh.NewRecorder("C10", "concurrent-sessions",
 		"8-32 goroutines x 20-100 requests each over generated same/different session assignments, all at once, against one sessions.Cache "+
 			"handler under -race; oracle: no race/fatal, the backend never sees a cookie tagged with another session and never the session "+
